@@ -181,7 +181,9 @@ def totality(ctx, rule='C05-R2'):
     ctx.floor(rule, 'stores of slice labels to the valid hits', len(labelled), 1)
     if labelled:
         def count_terms(g):
-            return [x for x in T.walk(g) if tag(x) == 'call' and x[1] == ('g', 'builtins.len')]
+            # the number of valid hits, in any spelling (len(valids[valids]), valids.sum(), ...)
+            return [x for x in T.walk(g) if (tag(x) == 'call' and x[1] == ('g', 'builtins.len')) or
+                    (tag(x) in ('mcall', 'call') and T.count_cond(x) is not None)]
         counts = {}
         for e in labelled:
             for c in count_terms(e.guard):
